@@ -3,7 +3,7 @@
 //! with BigInt parts); oracles use exact rational (quadratic-field) Gram–Schmidt.
 
 use checks::bridge::Bridge;
-use checks::matconv::{all_matrices, from_mat, to_mat};
+use checks::matconv::{from_mat, matrix_at, matrix_count, to_mat};
 use num_bigint::BigInt;
 use vcore::refmat::RMat;
 use vcore::refnum::*;
@@ -334,14 +334,14 @@ where
     R::Ref: LatticeRing,
 {
     for &(m, n) in shapes {
-        let mats: Vec<(RMat<R::Ref>, String)> = all_matrices(m, n, alphabet).collect();
-        run.add("inputs", mats.len() as u64);
-        run.par_for(mats.len(), |i| {
+        let total = matrix_count(m, n, alphabet.len());
+        run.add("inputs", total as u64);
+        run.par_for(total, |i| {
             if run.over_budget() {
                 run.cap("wall budget reached before all inputs were explored");
                 return;
             }
-            let (a, code) = &mats[i];
+            let (a, code) = &matrix_at(m, n, alphabet, i);
             if !a.is_zero() {
                 run.add("nonzero_inputs", 1);
             }
